@@ -8,8 +8,9 @@ import (
 
 func TestReplay(t *testing.T) {
 	verif.ReplayMain(map[string]func(){
-		"HarnessEndToEnd":    HarnessEndToEnd,
-		"HarnessManyStreams": HarnessManyStreams,
-		"HarnessServerWire":  HarnessServerWire,
+		"HarnessCompositeElements": HarnessCompositeElements,
+		"HarnessEndToEnd":          HarnessEndToEnd,
+		"HarnessManyStreams":       HarnessManyStreams,
+		"HarnessServerWire":        HarnessServerWire,
 	})
 }
